@@ -337,13 +337,63 @@ func (in *Inst) consume(idx int, ch chan tracing.ITrace) {
 	in.mu.Unlock()
 }
 
-// Start calls StartAll.
-func (in *Inst) Start() error {
-	in.note("StartAll.call", "")
-	err := in.Proc.StartAll(in.Ctx)
-	in.note("StartAll.return", "")
-	return err
+// Call is an engine call made from its own (labelled) driver goroutine, so a
+// call that never returns shows up as a blocked caller at the quiescent point
+// instead of hanging the driver.
+type Call struct {
+	mu   sync.Mutex
+	done bool
+	err  error
 }
+
+func (c *Call) Done() (bool, error) {
+	c.mu.Lock()
+	defer c.mu.Unlock()
+	return c.done, c.err
+}
+
+// Go runs f in a driver goroutine and records its return.
+func (in *Inst) Go(name string, f func() error) *Call {
+	c := &Call{}
+	in.note(name+".call", "")
+	go func() {
+		err := f()
+		c.mu.Lock()
+		c.done, c.err = true, err
+		c.mu.Unlock()
+		in.note(name+".return", "")
+	}()
+	return c
+}
+
+// StartAsync calls StartAll from a driver goroutine.
+func (in *Inst) StartAsync() *Call {
+	return in.Go("StartAll", func() error { return in.Proc.StartAll(in.Ctx) })
+}
+
+// Start calls StartAll and waits until it returned or the case is quiescent
+// (a StartAll that is still blocked then is reported by the caller-blocked rule).
+func (in *Inst) Start() error {
+	c := in.StartAsync()
+	for i := 0; ; i++ {
+		if d, err := c.Done(); d {
+			return err
+		}
+		if i > 50 {
+			q := in.Quiesce(30 * time.Second)
+			if d, err := c.Done(); d {
+				return err
+			}
+			if q.Quiescent {
+				return ErrStartBlocked
+			}
+		}
+		time.Sleep(20 * time.Microsecond)
+	}
+}
+
+// ErrStartBlocked is returned by Start when StartAll is still blocked at a quiescent point.
+var ErrStartBlocked = fmt.Errorf("StartAll still blocked at the quiescent point")
 
 func (in *Inst) note(kind, node string) {
 	e := Ev{Seq: Seq.Add(1), Sub: -1, Kind: kind, Node: node}
